@@ -340,8 +340,136 @@ def _prepare():
     warm_up()
 
 
+# ---- the frozen corpus of realistic workbooks (xmc/corpus.py) as one more set of driver forms ----
+_CFORMS = None
+_CREF = None
+
+
+def cforms():
+    global _CFORMS
+    if _CFORMS is None:
+        from xmc import corpus
+
+        _CFORMS = {cid: wb for cid, _, wb in corpus.forms()}
+    return _CFORMS
+
+
+def cref():
+    """solo results of every corpus form: each converted in its own forked copy of a fresh interpreter (PYTHONHASHSEED=0)"""
+    global _CREF
+    if _CREF is None:
+        _CREF = fresh(cforms(), 0)["res"]
+    return _CREF
+
+
+def check_cseed(case):
+    got = fresh(cforms(), case["seed"])["res"]
+    R = cref()
+    viol = []
+    for n in R:
+        part, d = diff_sig(got[n], R[n])
+        if part:
+            viol.append((f"hash-seed:{part}-differs:corpus", f"PYTHONHASHSEED={case['seed']} corpus form {n}: {d}"))
+    return {"outcome": "seed:same" if not viol else "seed:differs", "nt": not viol, "viol": viol[:3], "tr": len(R)}
+
+
+def check_chist(case):
+    """one long history: every corpus form converted in turn in one process (file order, reverse order, or each form's own
+    workbook object twice in a row); every result must be the solo fresh-process result of that form"""
+    R = cref()
+    F = cforms()
+    order = list(F)
+    if case["mode"] == "rev":
+        order.reverse()
+
+    def job():
+        import copy
+
+        from pyxform.xls2xform import convert
+
+        clear_caches()
+        td = tempfile.mkdtemp(prefix="c14.", dir="/var/tmp")
+        tempfile.tempdir = td
+        out = []
+        for n in order:
+            obj = copy.deepcopy(F[n])
+            for _ in range(2 if case["mode"] == "twice" else 1):
+                try:
+                    r = convert(obj)
+                    res = [r.xform, list(r.warnings), r.itemsets]
+                except Exception as e:  # noqa: BLE001 - a refused form: its message is the observation
+                    res = ["EXC " + type(e).__name__ + ": " + str(e), [], None]
+                out.append((n, res))
+        files = sorted(os.listdir(td))
+        import shutil
+
+        shutil.rmtree(td, ignore_errors=True)
+        return out, files
+
+    out, files = S.in_child(job, timeout=300)
+    viol = []
+    seen = set()
+    for i, (n, res) in enumerate(out):
+        part, d = diff_sig(res, R[n])
+        if part:
+            which = "second-conversion-of-the-same-object" if n in seen else "after-other-forms"
+            viol.append((f"history:{part}-differs:corpus:{which}", f"mode={case['mode']} step {i} corpus form {n}: {d}"))
+        seen.add(n)
+    if files:
+        viol.append(("history:tmp-residue:corpus", str(files)[:200]))
+    return {"outcome": "hist:ok" if not viol else "hist:bad", "nt": not viol, "viol": viol[:3], "tr": len(out)}
+
+
+def check_cregen(case):
+    """every accepted corpus form: compact, pretty, compact again from the same survey object; and three generations of a
+    survey rebuilt from the JSON form"""
+    R = cref()
+    n = case["form"]
+    if R[n][0].startswith("EXC "):
+        return {"outcome": "regen:refused-form", "nt": False, "viol": [], "tr": 1}
+
+    def job():
+        import copy
+
+        from pyxform.builder import create_survey_element_from_dict
+        from pyxform.xls2xform import convert
+
+        r = convert(copy.deepcopy(cforms()[n]))
+        sv = r._survey
+        gens = []
+        for pretty in (False, True, False, True):
+            w = []
+            gens.append((pretty, sv.to_xml(validate=False, pretty_print=pretty, warnings=w), w))
+        sv2 = create_survey_element_from_dict(copy.deepcopy(r._pyxform))
+        fresh_ = []
+        for _ in range(3):
+            w = []
+            fresh_.append((sv2.to_xml(validate=False, pretty_print=False, warnings=w), w))
+        return r.xform, gens, fresh_
+
+    first_x, gens, fresh_ = S.in_child(job)
+    viol = []
+    if first_x != R[n][0]:
+        viol.append(("regen:first-differs:corpus", n))
+    if gens[0][1] != R[n][0] or gens[2][1] != R[n][0]:
+        viol.append(("regen:compact-differs-after-regeneration:corpus", f"corpus form {n}: " + diff_sig([gens[2][1] if gens[0][1] == R[n][0] else gens[0][1]], [R[n][0]])[1]))
+    if gens[1][1] != gens[3][1]:
+        viol.append(("regen:p-not-stable:corpus", f"corpus form {n}"))
+    if any(g[2] != gens[0][2] for g in gens[1:]):
+        viol.append(("regen:warnings-differ-between-generations:corpus", f"corpus form {n}: {[g[2] for g in gens]!r}"[:300]))
+    if any(f_ != fresh_[0] for f_ in fresh_[1:]):
+        viol.append(("regen:generations-of-a-fresh-survey-differ:corpus", f"corpus form {n}"))
+    return {"outcome": "regen:ok" if not viol else "regen:bad", "nt": not viol, "viol": viol[:3], "tr": 7}
+
+
 def blocks(tier):
     _prepare()
+    for s_ in ((1, 2, 3, 4, 5, 6) if tier == "quick" else range(1, 33)):
+        yield ("cseed", s_)
+    for mode in ("fwd", "rev", "twice"):
+        yield ("chist", mode)
+    for i in range(0, len(cforms()), 40):
+        yield ("cregen", i)
     nseeds = 48 if tier == "quick" else 128
     for s in range(0, nseeds, 4):
         yield ("seed", s, min(nseeds, s + 4))
@@ -426,6 +554,16 @@ def gen_reuse(tier):
 
 def expand(block, tier):
     kind = block[0]
+    if kind == "cseed":
+        yield {"g": "cseed", "seed": block[1]}
+        return
+    if kind == "chist":
+        yield {"g": "chist", "mode": block[1]}
+        return
+    if kind == "cregen":
+        for n in list(cforms())[block[1]:block[1] + 40]:
+            yield {"g": "cregen", "form": n}
+        return
     if kind == "reuse":
         yield from itertools.islice(gen_reuse(tier), block[1], block[2])
         return
@@ -649,7 +787,8 @@ def check_sched(case):
 def check_one(case):
     if _REF is None:
         _prepare()
-    return {"seed": check_seed, "hist": check_hist, "regen": check_regen, "sched": check_sched, "reuse": check_reuse}[case["g"]](case)
+    return {"seed": check_seed, "hist": check_hist, "regen": check_regen, "sched": check_sched, "reuse": check_reuse,
+            "cseed": check_cseed, "chist": check_chist, "cregen": check_cregen}[case["g"]](case)
 
 
 def extra_coverage(tier, tot):
